@@ -41,7 +41,7 @@ CHECKS = {
                      'multigraph over the stated number of files (target of every import slot and the start file are symbolic). Per path z3 decides whether some '
                      'graph makes the emitted components differ from graph reachability (each reachable file once, nothing unreachable, no file parsed that is '
                      'unreachable), and non-termination shows as bounded-depth divergence; counterexample graphs are replayed on the native binary.',
-                note='trusted: SMI environment models; graphs bounded to 3 files x 2 slots (quick) / 4 x 2 and 3 x 3 (thorough); divergence bound 60 frames'),
+                note='trusted: SMI environment models; graphs bounded to 3 files x 2 slots (quick); thorough adds 4 x 1, 2 x 3 and 3 x 2 with missing targets; divergence bound 60 frames'),
     'C12': dict(engine='E2-smi', cat='model_checking', design='4/C12',
                 technique='symbolic execution of reader + emitter MIR with symbolic HashMap iteration orders, file registration orders and call histories',
                 text='Every HashMap the interpreted code creates iterates in a symbolic permutation (its documented contract); one exploration covers all '
